@@ -23,7 +23,7 @@ def run(ctx):
     ctx.audit(THEOREMS, ["Folang.Props.C07"])
     if ctx.tier == "thorough":
         ctx.leanchecker(["Folang.Props.C07"])
-    n = 60 if ctx.tier == "quick" else 4000
+    n = 60 if ctx.tier == "quick" else 900
     r = ctx.run_harness([fcdrv], env=gocommon.fc_env("c07", "%d %d" % (ctx.seed, n)), timeout=20000)
     ok = r is not None
     if ok:
